@@ -482,6 +482,10 @@ def run(repo, chk):
                    "Link.%s setter stores the node object held by the registry" % which, loc(st),
                    "the link must reference the registry's node (existing), not a foreign object")
         us = usage_sites(st)
+        if asg and us and us[0][0] == "remove_usage":
+            chk.expect(us[0][4].lineno < asg[0].lineno, "R-C14-5", "Link.%s setter un-registers the old node BEFORE replacing self._%s" % (which, which), loc(st, asg[0]),
+                       "the key of remove_usage (%s_name) is read from the node object: once self._%s is replaced it names the new node and the old node keeps a stale usage record" % (which, which),
+                       expected="remove_usage(old name) precedes the assignment", found="assignment at line %d, remove_usage at line %d" % (asg[0].lineno, us[0][4].lineno))
         chk.expect([u[0] for u in us] == ["remove_usage", "add_usage"] and
                    us[0][3] is not None and ("%s_name" % which) in unparse(us[0][3]), "R-C14-5",
                    "Link.%s setter un-registers the old %s and registers the new one" % (which, which), loc(st),
